@@ -82,6 +82,24 @@ inductive VarsFit (reg : Reg) (vars : Option (List (String × PV))) : Ty → Lit
       (∀ f, f ∈ fs → ∀ l, lookupLast f.name lkvs = some l → VarsFit reg vars f.type l) →
       VarsFit reg vars ty (.obj lkvs)
 
+/-- What the validation rule VariablesInAllowedPosition has checked for the variables used inside literal `l` at a
+    position of type `ty` (`hasDefault`: the position — argument or input field — declares a default): every usage `$x`
+    is allowed (`allowedUsage`) against every definition of `$x`. Same shape as `VarsFit`; list items never have a default,
+    input fields have the field's. -/
+inductive VarsAllowed (reg : Reg) (defs : List VarDef) : Ty → Bool → Lit → Prop
+  | var {ty : Ty} {hasDefault : Bool} {x : String} :
+      (∀ d, d ∈ defs → d.name = x → allowedUsage d.type d.hasNonNullDefault ty hasDefault = true) →
+      VarsAllowed reg defs ty hasDefault (.var x)
+  | leaf {ty : Ty} {hasDefault : Bool} {l : Lit} : l.isLeaf = true → VarsAllowed reg defs ty hasDefault l
+  | listItems {ty t' : Ty} {hasDefault : Bool} {items : List Lit} : stripNN ty = .list t' →
+      (∀ i, i ∈ items → VarsAllowed reg defs t' false i) → VarsAllowed reg defs ty hasDefault (.list items)
+  | listSingle {ty t' : Ty} {hasDefault : Bool} {lkvs : List (String × Lit)} : stripNN ty = .list t' →
+      VarsAllowed reg defs t' false (.obj lkvs) → VarsAllowed reg defs ty hasDefault (.obj lkvs)
+  | obj {ty : Ty} {hasDefault : Bool} {n : String} {fs : List InField} {lkvs : List (String × Lit)} : stripNN ty = .named n →
+      reg.get? n = some (.input fs) →
+      (∀ f, f ∈ fs → ∀ l, lookupLast f.name lkvs = some l → VarsAllowed reg defs f.type f.default.isSome l) →
+      VarsAllowed reg defs ty hasDefault (.obj lkvs)
+
 mutual
 /-- `AstOfJson reg ty j l`: `l` is the literal spelling (`astOfJson`) of the JSON value `j` at a position of
     type `ty`, and `j` is of the NATURAL JSON kind for `ty`:
